@@ -25,6 +25,7 @@
 #include <ctype.h>
 #include <sys/wait.h>
 #include <sys/mman.h>
+#include <sys/resource.h>
 
 enum { RD_HB = 0, RD_RB, RD_MM, RD_TRI };
 enum { RD_INIT = 0, RD_NOFILE, RD_RETURNED, RD_BADDIMS, RD_COPIED };
@@ -250,10 +251,13 @@ static void write_hbrb(rng_t *r, cmat_t *M, sb_t *s) {
     char L = M->vs.style == 0 ? (char)toupper((unsigned char)M->vs.explet) : 'F';
     if (M->vs.style == 0 && rng_chance(r, 0.1)) L = (L == 'E') ? 'D' : 'E';     /* input editing accepts either exponent letter */
     char I = 'I', Pc = 'P'; if (M->fmtlower) { L = (char)tolower((unsigned char)L); I = 'i'; Pc = 'p'; }
-    sprintf(M->ptrfmt, "(%d%c%d)", M->pk, I, M->pw); sprintf(M->indfmt, "(%d%c%d)", M->ik, I, M->iw);
+    const char *b1 = rng_chance(r, 0.12) ? " " : "", *b2 = rng_chance(r, 0.12) ? " " : "";   /* blanks are insignificant in a format */
+    sprintf(M->ptrfmt, "%s(%s%d%c%d%s)", rng_chance(r, 0.1) ? " " : "", b1, M->pk, I, M->pw, b2); sprintf(M->indfmt, "(%s%d%c%d%s)", b2, M->ik, I, M->iw, b1);
+    char esuf[8] = ""; if (M->vs.style == 0 && M->vs.expstyle == 2 && rng_chance(r, 0.5)) { if (L == 'E' || L == 'e') sprintf(esuf, "%c3", L); }
     int sc = M->vs.style == 0 ? M->vs.s : M->vs.fshift;
-    if (M->pform == 0) sprintf(M->valfmt, "(%d%c%d.%d)", M->vk, L, M->vw, M->vd);
-    else sprintf(M->valfmt, "(%d%c%s%d%c%d.%d)", sc, Pc, M->pform == 2 ? "," : "", M->vk, L, M->vw, M->vd);
+    if (M->pform == 0) sprintf(M->valfmt, "(%s%d%c%d.%d%s%s)", b1, M->vk, L, M->vw, M->vd, esuf, b2);
+    else sprintf(M->valfmt, "(%d%c%s%d%c%d.%d%s)", sc, Pc, M->pform == 2 ? (rng_chance(r, 0.2) ? ", " : ",") : "", M->vk, L, M->vw, M->vd, esuf);
+    if (strlen(M->valfmt) > 20) { if (M->pform == 0) sprintf(M->valfmt, "(%d%c%d.%d)", M->vk, L, M->vw, M->vd); else sprintf(M->valfmt, "(%d%c%s%d%c%d.%d)", sc, Pc, M->pform == 2 ? "," : "", M->vk, L, M->vw, M->vd); }
     int nrhs = 0, rk = 1, rw = 12; long rhscrd = 0;
     if (M->rhs) { nrhs = rng_int(r, 1, 2); rw = rng_int(r, 10, 16); rk = rng_int(r, 1, 80 / rw); sprintf(M->rhsfmt, "(%dE%d.%d)", rk, rw, rw - 8); rhscrd = ((long)nrhs * M->m * vpe + rk - 1) / rk; }
     long ptrcrd = (n + 1 + M->pk - 1) / M->pk, indcrd = (ns + M->ik - 1) / M->ik, valcrd = (nv + M->vk - 1) / M->vk;
@@ -368,7 +372,9 @@ static void run_reader(ctx_t *c, int fmt, char ty, const char *text, size_t len,
     pid_t pid = fork();
     if (pid < 0) { perror("fork"); exit(3); }
     if (pid == 0) {
-        signal(SIGALRM, SIG_DFL); alarm((unsigned)ctx_argl(c, "rtimeout", 3));
+        /* a reader that loops burns CPU: limit CPU time (immune to machine load); the wall-clock alarm is a backstop */
+        { struct rlimit rl; rl.rlim_cur = (rlim_t)ctx_argl(c, "rcpu", 2); rl.rlim_max = rl.rlim_cur + 2; setrlimit(RLIMIT_CPU, &rl); }
+        signal(SIGALRM, SIG_DFL); signal(SIGXCPU, SIG_DFL); alarm((unsigned)ctx_argl(c, "rtimeout", 60));
         int nul = open("/dev/null", O_WRONLY); if (nul >= 0) dup2(nul, 1);
         dup2(g_errfd, 2);
         switch (ty) { case 's': rd_run_s(fmt, text, len, g_sh, RD_CAP - sizeof(rd_shared_t), copy); break;
@@ -382,7 +388,7 @@ static void run_reader(ctx_t *c, int fmt, char ty, const char *text, size_t len,
     ssize_t got = read(g_errfd, rep, sizeof rep - 1 < (size_t)sz ? sizeof rep - 1 : (size_t)sz); if (got < 0) got = 0; rep[got] = 0;
     int san = strstr(rep, "ERROR: AddressSanitizer") || strstr(rep, "AddressSanitizer:DEADLYSIGNAL") || strstr(rep, "runtime error:");
     if (san) { strcpy(status, "memerr"); digest_report(rep, diag, diaglen); fputs(rep, stderr); }
-    else if (WIFSIGNALED(st) && WTERMSIG(st) == SIGALRM) strcpy(status, "hang");
+    else if (WIFSIGNALED(st) && (WTERMSIG(st) == SIGALRM || WTERMSIG(st) == SIGXCPU || WTERMSIG(st) == SIGKILL)) strcpy(status, "hang");
     else if (WIFSIGNALED(st) && WTERMSIG(st) == SIGABRT) { strcpy(status, "abort"); digest_report(rep, diag, diaglen); }
     else if (WIFSIGNALED(st)) { sprintf(status, "signal%d", WTERMSIG(st)); }
     else if (WEXITSTATUS(st) != 0) sprintf(status, "exit%d", WEXITSTATUS(st));
